@@ -56,8 +56,8 @@ Proof.
   destruct (q_delay q >? 0); [discriminate|].
   destruct (next_trial all_rep q) eqn:En; try discriminate.
   split; [reflexivity|]. intros a n.
-  apply next_trial_empty in En.
-  assert (E2 : next_trial all_rep (add_samples q n true) = NTempty) by (apply next_trial_empty; exact En).
+  apply (next_trial_empty all_rep eq_refl) in En.
+  assert (E2 : next_trial all_rep (add_samples q n true) = NTempty) by (apply (next_trial_empty all_rep eq_refl); exact En).
   now rewrite E2.
 Qed.
 
